@@ -31,6 +31,26 @@ def run(ck):
              what="model -> code: scenarios of the vertex-graph model (2-3 synthetic cells sharing edges, bucket counts 2..24, base hash "
                   "values concentrated on multiples of the bucket count, copies of a shared vertex 2e-12 rad apart across a hash "
                   "boundary, random processing order) replayed into the real vertexGraph.c primitives; the edges left must be the outline")
+    # the loop algorithms' antimeridian normalisation (bboxFrom / pointInside / isClockwise of polygonAlgos.h)
+    ck.mc("MC_LoopNorm", "MC_LoopNorm.cfg", workers=4,
+          what="rectangle loops on a 15-degree longitude grid that do not cover both the antimeridian and the prime meridian: the "
+               "transcribed bounding box, ray casting with 'negative + 2 pi' normalisation and winding sum agree with the reference "
+               "(point in the arc; counter-clockwise) at every test point")
+    ck.mc("MC_LoopNorm", "MC_LoopNorm_exact.cfg", workers=4,
+          what="all rectangle loops: the transcription disagrees with the reference exactly for the loops across both meridians")
+    ck.mc("MC_LoopNorm", "MC_LoopNorm_both.cfg", workers=4,
+          what="all rectangle loops: expected to violate InsideOK on the pinned design (known finding: a loop across both meridians is "
+               "torn apart at longitude 0)")
+    dln = vlib.build_driver("drv_loopnorm", "dbg", internal=True)
+    tl = os.path.join(ck.tdir, "loopnorm.ndjson")
+    d = vlib.run_driver(dln, ["run", ck.tier, ck.seed, tl], timeout=600)
+    if d["rc"] != 0:
+        raise vlib.InfraError("driver failed rc=%s %s" % (d["rc"], d["err"][-1500:]))
+    ck.trace("loopnorm-impl", "Trace_LoopNorm", "Trace_LoopNorm_impl.cfg", tl, nchunks=8, drift=True,
+             what="model -> code: every rectangle loop of the 10-degree grid as GeoLoop and as LinkedGeoLoop through the real bboxFrom*, "
+                  "pointInside* (18 test points), isClockwise* (loop and reverse): the code does what the transcription does")
+    ck.trace("loopnorm-ref", "Trace_LoopNorm", "Trace_LoopNorm_ref.cfg", tl, nchunks=8, max_rejections=100000,
+             what="the same observations against the reference semantics; the loops across both meridians are the known finding")
     drv = vlib.build_driver("drv_lmp", "alloc")
     t = os.path.join(ck.tdir, "lmp.ndjson")
     d = vlib.run_driver(drv, ["run", ck.tier, ck.seed, t], timeout=3000)
